@@ -607,6 +607,11 @@ impl JpegBitstreamReconstructor<'_, '_, '_> {
                     h8,
                 };
 
+                if si.ss > si.se {
+                    tracing::error!(si.ss, si.se, "Spectral selection starts after its end");
+                    return Err(Error::InvalidData);
+                }
+
                 if !self.is_progressive {
                     if si.ss != 0 || si.se != 0x3f || si.al != 0 || si.ah != 0 {
                         tracing::error!(
